@@ -382,6 +382,21 @@ func runC16(env *Env, tier string) {
 				env.Stat("fault_sql_" + stmt + "_fails_in_reset")
 				break
 			}
+			if kind == "file" && ch.Chance("resetdiskfault", 1, 4) {
+				// the disk fails the first thing the reset does to it (syncing a file it is about to close): the
+				// operation reports the error and changes nothing
+				simos.Current().ArmWriteFault(1, simos.Fault{Err: errors.New("injected: input/output error")})
+				label = "Reset while the disk fails the first sync"
+				err := u.st.Reset()
+				if simos.Current().DisarmWriteFault() {
+					env.Fatalf("%s: the armed disk fault did not fire", label)
+				}
+				if err == nil {
+					env.Violate("C16/file/failure-swallowed", "%s reported success", label)
+				}
+				env.Stat("fault_disk_sync_error_in_reset")
+				break
+			}
 			label = "Reset"
 			before := time.Now()
 			if err := u.st.Reset(); err != nil {
